@@ -129,6 +129,16 @@ pub fn c08_value_shift_seven() {
     }
     crate::s5::set_shift(k);
     check!(s.hand_rank_value() == v, "seven: k suit shifts keep the value (k = 1, 2, 3)");
+    #[cfg(not(kani))]
+    super::c02::concrete::families::<7>(|w| {
+        let h = Seven::from(w);
+        let (s1, v) = (h.shift_suit(), h.hand_rank_value());
+        let s2 = s1.shift_suit();
+        if s1.hand_rank_value() != v || s2.hand_rank_value() != v || s2.shift_suit().hand_rank_value() != v {
+            return Some("concretised on the real evaluator: seven-card value changes under shift_suit");
+        }
+        None
+    });
     cover!(k == 3, "three shifts");
     cover!(k == 1, "one shift");
 }
@@ -154,6 +164,16 @@ pub fn c08_value_shift_six() {
     }
     crate::s5::set_shift(k);
     check!(s.hand_rank_value() == v, "six: k suit shifts keep the value (k = 1, 2, 3)");
+    #[cfg(not(kani))]
+    super::c02::concrete::families::<6>(|w| {
+        let h = Six::from(w);
+        let (s1, v) = (h.shift_suit(), h.hand_rank_value());
+        let s2 = s1.shift_suit();
+        if s1.hand_rank_value() != v || s2.hand_rank_value() != v || s2.shift_suit().hand_rank_value() != v {
+            return Some("concretised on the real evaluator: six-card value changes under shift_suit");
+        }
+        None
+    });
     cover!(k == 3, "three shifts");
     cover!(k == 1, "one shift");
 }
